@@ -98,7 +98,7 @@ class Expand3d(Task):
         ctx.oblige("post.replication", veq(ctx, out.value, exp), "P")
 
 
-def tasks(tier):
+def _tasks0(tier):
     from props.whip_parents import parent_tasks
     return [WhipScan(), Expand3d()] + parent_tasks(tier)
 
@@ -109,7 +109,8 @@ def canaries(tier):
              [(f, "remainder = np.prod(tshape)*8 - np.prod(shape)*FIELD_INDEX*8 - np.prod(shape)*8",
                "remainder = np.prod(tshape)*8 - np.prod(shape)*FIELD_INDEX*8")], ["readfieldfrombinfile"]),
             ("expand3d: one axis repeated twice", [("amr_kitchen/utils.py", "factor, axis=1),\n                     factor, axis=2)",
-                                                   "factor, axis=1),\n                     factor, axis=1)")], ["expand_array3d"])] + __import__("props.whip_parents", fromlist=["parent_canaries"]).parent_canaries()
+                                                   "factor, axis=1),\n                     factor, axis=1)")], ["expand_array3d"])] + __import__("props.whip_parents", fromlist=["parent_canaries"]).parent_canaries() + \
+        __import__("props.parsers", fromlist=["parser_canaries"]).parser_canaries()
 
 
 SCENARIO_TIMEOUT = 400
@@ -121,9 +122,18 @@ def scenarios(tier, seed):
              "nfiles": [3, 2, 4][i % 3], "layout": ["shuffled", "roundrobin"][i % 2], "box_sizes": [8, 16] if i % 2 else None,
              "n0": [16, 8, 24] if i % 2 == 0 else [16, 16, 16], "ncombos": 3 if tier == "quick" else 8,
              "orders": ["real", "shuffle", "reversed"] if tier == "quick" else ["real", "shuffle", "reversed", "shuffle", "submission"]}
-            for i in range(n)]
+            for i in range(n)] + \
+        [{"kind": "whip", "seed": seed * 1000 + 650, "ndims": 3, "nf": 2, "nlevels": 2, "nfiles": 2, "layout": "shuffled", "n0": [9, 8, 8],
+          "ncombos": 3, "orders": ["real", "reversed"]}]        # one-cell-thick boxes (a domain that the box size does not divide)
 
 
 def run_scenario(p, wd):
     from harness.rt_tools import run_whip_scenario
     return run_whip_scenario(p, wd)
+
+
+
+def tasks(tier):
+    # the FAB header parsers / formatter (real bodies on canonical header text): the obligations behind the header contracts
+    from props.parsers import parser_tasks
+    return _tasks0(tier) + parser_tasks("C10", nds=(2, 3))
